@@ -72,6 +72,10 @@ def arr_attr(ex, st, arr, name):
         return arr.view(arr.a.T)
     if name == "dtype":
         return {"f": "float64", "i": "int64", "b": "bool", "O": "object"}[arr.kind]
+    if name == "real":
+        return arr          # A-FP: values are reals
+    if name == "imag":
+        return L.mk([Fraction(0)] * arr.size, arr.shape, "f")
     if name == "value" and hasattr(arr, "problem"):
         from . import cvxmodel
 
